@@ -543,4 +543,28 @@ Proof.
   unfold rs_set_out. cbn. rewrite Ht. cbn. unfold same_but_cursor_out. cbn. repeat split; reflexivity.
 Qed.
 
+(* ---- C04: pairing and the pipelining indicator ---- *)
+(* a response is attached to the transaction at position out_next_tx_index (the oldest request not yet answered), and the
+   position moves on by exactly one; the request fields of that transaction are not touched by the attachment *)
+Lemma res_idle_pairs c t :
+  rs_has_byte c = true -> nth_error (c_txs c) (c_out_next_tx_index c) = Some (Some t) ->
+  exists c1, rs_RES_IDLE cb g c = tx_state_response_start cb (c_txs_shifted c + c_out_next_tx_index c) c1 /\
+             c_out_tx c1 = Some (c_txs_shifted c + c_out_next_tx_index c)%nat /\
+             c_out_next_tx_index c1 = S (c_out_next_tx_index c) /\ c_txs c1 = c_txs c /\ c_txs_shifted c1 = c_txs_shifted c.
+Proof.
+  intros Hb Hn. unfold rs_RES_IDLE. rewrite Hb, Hn. cbn [negb].
+  eexists. split; [unfold out_txi; cbn; reflexivity|]. cbn. repeat split; reflexivity.
+Qed.
+
+(* the pipelining indicator is raised by the one function that creates transactions, exactly when a transaction is
+   created while an earlier one has not had its response started (list longer than out_next_tx_index) *)
+Lemma tx_create_pipelined c :
+  c_conn_flags (snd (connp_tx_create g c)) =
+    if (c_out_next_tx_index c <? length (c_txs c))%nat then flag_set (c_conn_flags c) c_HTP_CONN_PIPELINED else c_conn_flags c.
+Proof.
+  unfold connp_tx_create.
+  destruct (c_out_next_tx_index c <? length (c_txs c))%nat;
+    destruct ((0 <? g_max_tx g) && (g_max_tx g <? _))%nat; reflexivity.
+Qed.
+
 End P.
